@@ -88,7 +88,9 @@ def check_history(case, rec):
     shape = case["shape"]
     pool = []  # (command, fuzzy, snapshot)
     for i, p in enumerate(case["producers"]):
-        arr = A.make_array(p["spec"], shape)
+        arr = A.make_array(p["spec"], p.get("shape") or shape)
+        if p.get("shape"):
+            rec.label("producer_with_other_shape")
         cmd = A.stub("P%d" % i, arr, p["fuzzy"])
         pool.append([cmd, p["fuzzy"], snapshot(arr)])
     consumed = {}
@@ -213,7 +215,15 @@ def history(draw):
             fuzzy = False
         dtype = "float64" if fuzzy else draw(st.sampled_from(["float64", "int64"]))
         spec = draw(G.array_spec(size, dtype, fuzzy=fuzzy, two_distinct=False) if False else G.array_spec(size, dtype, fuzzy=fuzzy))
-        producers.append({"spec": spec, "fuzzy": fuzzy})
+        prod = {"spec": spec, "fuzzy": fuzzy}
+        # a few producers hold the same cells under another shape (an extra or a dropped length-1 axis, flattened,
+        # axes reversed): consumers reject the mixture or not, but may not touch the stored results either way
+        other = draw(st.sampled_from([None] * 6 + ["lead1", "trail1", "squeeze", "flat", "rev"]))
+        alt = {"lead1": [1] + list(shape), "trail1": list(shape) + [1], "squeeze": [d for d in shape if d != 1] or [1],
+               "flat": [size], "rev": list(shape)[::-1]}.get(other)
+        if alt and alt != list(shape) and i > 0:
+            prod["shape"] = alt
+        producers.append(prod)
     nsteps = draw(st.sampled_from([1, 2, 3, 5, 8, 12, 16, 20, 25]))
     steps = draw(st.lists(step(), min_size=nsteps, max_size=nsteps))
     return {"shape": shape, "producers": producers, "steps": steps}
